@@ -781,7 +781,18 @@ class CallMixin:
             return self.apply_contract(c, fi, bound, line)
         if (c is not None and c.inline) or self.specs.may_inline(fq):
             return self.inline_call(fi, args, kwargs, line, self_val)
+        if c is None and not fi.is_async and self._small_helper(fi):
+            # a helper without a contract (e.g. one a refactoring extracted): its body is executed in place
+            return self.inline_call(fi, args, kwargs, line, self_val)
         raise Unsupported(f"call to {fq} which has no contract and is not marked inline (line {line})")
+
+    def _small_helper(self, fi) -> bool:
+        import ast as _ast
+        if any(f.fn_name == fi.qualname for f in self.frames):
+            return False  # recursion
+        n = sum(1 for _ in _ast.walk(fi.node))
+        loops = any(isinstance(x, (_ast.For, _ast.While, _ast.AsyncFor)) for x in _ast.walk(fi.node))
+        return n < 400 and not loops
 
     def inline_call(self, fi, args, kwargs, line, self_val=None):
         from .symex import Frame
@@ -880,6 +891,8 @@ class CallMixin:
                 self.raise_builtin(exc_name, line)
         result = self.fresh_value(self.ret_type(fi) if c.ret_type is None else c.ret_type, f"{name}.ret")
         for cname, efn in c.ensures.items():
+            if (c.fq, cname) in self.specs.unproved:
+                continue  # a recorded known finding: the clause does not hold, so it is not assumed here
             f = self.eval_spec(efn, {**post_vals, "old": old, "result": result}, c)
             self.side_fact(f)
         return result
@@ -1314,6 +1327,11 @@ class CallMixin:
     def apply_opaque(self, spec, recv, name, args, kwargs, line):
         """spec: dict(ret=Ty, may_raise=bool, pure=bool, args=int)"""
         rt = spec["ret"]
+        if spec.get("arg_types"):
+            # declared parameter types: e.g. an Optional argument that the code has just tested is passed as its
+            # value (the coercion obliges `is not None` under the current guards)
+            args = [self.coerce(a, t, line) if isinstance(a, SV) and a.term is not None else a
+                    for a, t in zip(args, spec["arg_types"])] + list(args[len(spec["arg_types"]):])
         if spec.get("may_raise"):
             if self.in_pure_mode():
                 pass  # exceptions inside comprehension elements are not modelled (DESIGN assumption)
